@@ -85,7 +85,8 @@ fn peephole2_helper(lines: &[Line], index: usize, ret: &mut Vec<Line>) -> bool {
             {
                 match (instr1, instr2) {
                     // PUSH POP
-                    (Instr::PushNil(n), Instr::Pop) => {
+                    // (`PushNil(0)` pushes nothing, so a `Pop` after it pops an earlier value)
+                    (Instr::PushNil(n), Instr::Pop) if n >= 1 => {
                         ret.push(Line::Instr {
                             instr: Instr::PushNil(n - 1),
                             lineno,
